@@ -1,1 +1,310 @@
+/-
+Structural lemmas about the LRA model (OratioModel/Net/Lra.lean) used by Properties/C09.lean:
+which fields the simplex operations touch, what `check` returns, and the first-write-wins undo log.
+-/
 import OratioModel
+
+namespace Oratio
+namespace Lra
+
+/-! ### the part of the state that `check` never touches -/
+
+/-- bounds, assertions, undo log, expression and assertion tables -/
+def c09Core (t : Lra) :
+    List LBound × List (Nat × LAsrt) × List (List (Nat × LBound)) × List (String × Nat) × List (String × Lit) :=
+  (t.bounds, t.vAsrts, t.layers, t.exprs, t.sAsrts)
+
+theorem C09_core_iff (t u : Lra) :
+    u.c09Core = t.c09Core ↔
+      (u.bounds = t.bounds ∧ u.vAsrts = t.vAsrts ∧ u.layers = t.layers ∧ u.exprs = t.exprs ∧ u.sAsrts = t.sAsrts) := by
+  simp [c09Core, Prod.ext_iff]
+
+/-- a fold keeps an invariant that every step keeps -/
+theorem C09_foldl_inv {α β : Type} (P : β → Prop) (f : β → α → β) (hf : ∀ b a, P b → P (f b a)) :
+    ∀ (l : List α) (b : β), P b → P (l.foldl f b) := by
+  intro l
+  induction l with
+  | nil => intro b hb; exact hb
+  | cons a l ih => intro b hb; exact ih (f b a) (hf b a hb)
+
+theorem C09_foldl_core {α : Type} (f : Lra → α → Lra) (hf : ∀ t a, (f t a).c09Core = t.c09Core) (l : List α) (t : Lra) :
+    (l.foldl f t).c09Core = t.c09Core :=
+  C09_foldl_inv (fun u => u.c09Core = t.c09Core) f (fun b a hb => (hf b a).trans hb) l t rfl
+
+@[simp] theorem C09_core_setVal (t : Lra) (v : Nat) (x : IR) : (t.setVal v x).c09Core = t.c09Core := rfl
+@[simp] theorem C09_core_watchRow (t : Lra) (v r : Nat) : (t.watchRow v r).c09Core = t.c09Core := rfl
+@[simp] theorem C09_core_unwatchRow (t : Lra) (v r : Nat) : (t.unwatchRow v r).c09Core = t.c09Core := rfl
+@[simp] theorem C09_core_tabSet (t : Lra) (x : Nat) (l : Lin) : (t.tabSet x l).c09Core = t.c09Core := rfl
+
+theorem C09_core_newRow (t : Lra) (x : Nat) (l : Lin) : (t.newRow x l).c09Core = t.c09Core := by
+  unfold newRow
+  exact (C09_foldl_core _ (fun t (e : Nat × R) => C09_core_watchRow t e.1 x) _ _).trans rfl
+
+theorem C09_core_update (t : Lra) (xi : Nat) (v : IR) : (t.update xi v).c09Core = t.c09Core := by
+  unfold update
+  exact (C09_core_setVal _ _ _).trans (C09_foldl_core _ (fun t x => C09_core_setVal t x _) _ _)
+
+theorem C09_core_pivotRow (t : Lra) (xj : Nat) (expr : Lin) (r : Nat) : (t.pivotRow xj expr r).c09Core = t.c09Core := by
+  unfold pivotRow
+  refine (C09_core_tabSet _ _ _).trans ?_
+  refine C09_foldl_inv (fun (acc : Lin × Lra) => acc.2.c09Core = t.c09Core) _ ?_ _ _ rfl
+  intro acc e hacc
+  obtain ⟨rl, u⟩ := acc
+  dsimp only at hacc ⊢
+  split
+  · exact hacc
+  · split
+    · exact hacc
+    · exact hacc
+
+theorem C09_core_pivot (t : Lra) (xi xj : Nat) : (t.pivot xi xj).c09Core = t.c09Core := by
+  unfold pivot
+  refine (C09_core_newRow _ _ _).trans ?_
+  refine (C09_foldl_core _ (fun t r => C09_core_pivotRow t xj _ r) _ _).trans ?_
+  refine Eq.trans (b := (List.foldl (fun t e => unwatchRow t e.1 xi)
+      { t with tableau := t.tableau.filter (fun e => e.1 != xi) } ((t.rowOf xi).getD Lin.empty).vars).c09Core) rfl ?_
+  exact (C09_foldl_core _ (fun t (e : Nat × R) => C09_core_unwatchRow t e.1 xi) _ _).trans rfl
+
+theorem C09_core_pivotAndUpdate (t : Lra) (xi xj : Nat) (v : IR) : (t.pivotAndUpdate xi xj v).c09Core = t.c09Core := by
+  unfold pivotAndUpdate
+  refine (C09_core_pivot _ _ _).trans ?_
+  refine (C09_foldl_core _ ?_ _ _).trans rfl
+  intro t x
+  dsimp only
+  split
+  · exact C09_core_setVal _ _ _
+  · rfl
+
+theorem C09_core_check (fuel : Nat) : ∀ (t t' : Lra) (c : Option (List Lit)), t.check fuel = some (c, t') →
+    t'.c09Core = t.c09Core := by
+  induction fuel with
+  | zero => intro t t' c h; simp [check] at h
+  | succ n ih =>
+    intro t t' c h
+    simp only [check] at h
+    split at h
+    · simp only [Option.some.injEq, Prod.mk.injEq] at h; rw [← h.2]
+    · split at h
+      · split at h
+        · exact (ih _ _ _ h).trans (C09_core_pivotAndUpdate _ _ _ _)
+        · simp only [Option.some.injEq, Prod.mk.injEq] at h; rw [← h.2]
+      · split at h
+        · split at h
+          · exact (ih _ _ _ h).trans (C09_core_pivotAndUpdate _ _ _ _)
+          · simp only [Option.some.injEq, Prod.mk.injEq] at h; rw [← h.2]
+        · exact ih _ _ _ h
+
+/-! ### bound assertions -/
+
+theorem C09_saveBound_bounds (t : Lra) (i : Nat) : (t.saveBound i).bounds = t.bounds := by
+  unfold saveBound
+  split
+  · rfl
+  · split <;> rfl
+
+theorem C09_update_bounds (t : Lra) (xi : Nat) (v : IR) : (t.update xi v).bounds = t.bounds :=
+  congrArg (·.1) (C09_core_update t xi v)
+
+theorem C09_bnd_of_bounds_set (t u : Lra) (k : Nat) (b : LBound) (hu : u.bounds = t.bounds.set k b)
+    (hk : k < t.bounds.length) : u.bnd k = b ∧ ∀ i, i ≠ k → u.bnd i = t.bnd i := by
+  constructor
+  · simp [bnd, hu, List.getD_eq_getElem?_getD, hk]
+  · intro i hi
+    simp [bnd, hu, List.getD_eq_getElem?_getD, Ne.symm hi]
+
+theorem C09_assertLower_bounds (s : Sat) (t : Lra) (xi : Nat) (val : IR) (p : Lit)
+    (h1 : IR.le val (t.lb xi) = false) (h2 : IR.gt val (t.ub xi) = false) :
+    (assertLower s t xi val p).th.bounds = t.bounds.set (lbIdx xi) ⟨val, p⟩ := by
+  unfold assertLower
+  simp only [h1, h2, Bool.false_eq_true, if_false]
+  split
+  · dsimp only
+    split
+    · rw [C09_update_bounds]; simp only [setBound, C09_saveBound_bounds]
+    · simp only [setBound, C09_saveBound_bounds]
+  · dsimp only
+    split
+    · rw [C09_update_bounds]; simp only [setBound, C09_saveBound_bounds]
+    · simp only [setBound, C09_saveBound_bounds]
+
+theorem C09_assertUpper_bounds (s : Sat) (t : Lra) (xi : Nat) (val : IR) (p : Lit)
+    (h1 : IR.ge val (t.ub xi) = false) (h2 : IR.lt val (t.lb xi) = false) :
+    (assertUpper s t xi val p).th.bounds = t.bounds.set (ubIdx xi) ⟨val, p⟩ := by
+  unfold assertUpper
+  simp only [h1, h2, Bool.false_eq_true, if_false]
+  split
+  · dsimp only
+    split
+    · rw [C09_update_bounds]; simp only [setBound, C09_saveBound_bounds]
+    · simp only [setBound, C09_saveBound_bounds]
+  · dsimp only
+    split
+    · rw [C09_update_bounds]; simp only [setBound, C09_saveBound_bounds]
+    · simp only [setBound, C09_saveBound_bounds]
+
+theorem C09_assertLower_effect (s : Sat) (t : Lra) (xi : Nat) (val : IR) (p : Lit) :
+    (IR.le val (t.lb xi) = true → (assertLower s t xi val p).cnfl = none ∧ (assertLower s t xi val p).th = t ∧
+      (assertLower s t xi val p).sat = s) ∧
+    (IR.le val (t.lb xi) = false → IR.gt val (t.ub xi) = true →
+      (assertLower s t xi val p).cnfl = some [p.neg, (t.ubReason xi).neg] ∧ (assertLower s t xi val p).th = t ∧
+      (assertLower s t xi val p).sat = s) ∧
+    (IR.le val (t.lb xi) = false → IR.gt val (t.ub xi) = false → lbIdx xi < t.bounds.length →
+      (assertLower s t xi val p).th.bnd (lbIdx xi) = ⟨val, p⟩ ∧
+      ∀ i, i ≠ lbIdx xi → (assertLower s t xi val p).th.bnd i = t.bnd i) := by
+  refine ⟨?_, ?_, ?_⟩
+  · intro h1; simp [assertLower, h1]
+  · intro h1 h2; simp [assertLower, h1, h2]
+  · intro h1 h2 hk
+    exact C09_bnd_of_bounds_set t _ _ _ (C09_assertLower_bounds s t xi val p h1 h2) hk
+
+theorem C09_assertUpper_effect (s : Sat) (t : Lra) (xi : Nat) (val : IR) (p : Lit) :
+    (IR.ge val (t.ub xi) = true → (assertUpper s t xi val p).cnfl = none ∧ (assertUpper s t xi val p).th = t ∧
+      (assertUpper s t xi val p).sat = s) ∧
+    (IR.ge val (t.ub xi) = false → IR.lt val (t.lb xi) = true →
+      (assertUpper s t xi val p).cnfl = some [p.neg, (t.lbReason xi).neg] ∧ (assertUpper s t xi val p).th = t ∧
+      (assertUpper s t xi val p).sat = s) ∧
+    (IR.ge val (t.ub xi) = false → IR.lt val (t.lb xi) = false → ubIdx xi < t.bounds.length →
+      (assertUpper s t xi val p).th.bnd (ubIdx xi) = ⟨val, p⟩ ∧
+      ∀ i, i ≠ ubIdx xi → (assertUpper s t xi val p).th.bnd i = t.bnd i) := by
+  refine ⟨?_, ?_, ?_⟩
+  · intro h1; simp [assertUpper, h1]
+  · intro h1 h2; simp [assertUpper, h1, h2]
+  · intro h1 h2 hk
+    exact C09_bnd_of_bounds_set t _ _ _ (C09_assertUpper_bounds s t xi val p h1 h2) hk
+
+/-! ### the undo log -/
+
+/-- `u` was reached from `t.push` by saved overwrites: the newest layer holds values of `t`, every index not in it
+    still has its value of `t`, the older layers are those of `t` -/
+def C09PopInv (t u : Lra) : Prop :=
+  ∃ l, u.layers = l :: t.layers ∧ u.bounds.length = t.bounds.length ∧
+    (∀ e ∈ l, t.bounds[e.1]? = some e.2) ∧
+    (∀ i, (∀ e ∈ l, e.1 ≠ i) → u.bounds[i]? = t.bounds[i]?)
+
+theorem C09_popInv_push (t : Lra) : C09PopInv t t.push :=
+  ⟨[], rfl, rfl, by simp, fun _ _ => rfl⟩
+
+theorem C09_popInv_step (t u : Lra) (i : Nat) (b : LBound) (hi : i < t.bounds.length) (h : C09PopInv t u) :
+    C09PopInv t ((u.saveBound i).setBound i b) := by
+  obtain ⟨l, hl, hlen, h1, h2⟩ := h
+  by_cases hany : l.any (fun e => e.1 == i) = true
+  · have hs : u.saveBound i = u := by simp only [saveBound, hl, hany, if_true]
+    rw [hs]
+    refine ⟨l, hl, by simp [setBound, hlen], h1, ?_⟩
+    intro j hj
+    have hji : i ≠ j := by
+      obtain ⟨e, he, hei⟩ := List.any_eq_true.1 hany
+      have h3 := hj e he
+      have h4 : e.1 = i := by simpa using hei
+      omega
+    simp only [setBound, List.getElem?_set, hji, if_false]
+    exact h2 j hj
+  · have hs : u.saveBound i = { u with layers := (l ++ [(i, u.bnd i)]) :: t.layers } := by
+      simp only [saveBound, hl, hany, Bool.false_eq_true, if_false]
+    rw [hs]
+    have hni : ∀ e ∈ l, e.1 ≠ i := by
+      intro e he hei
+      exact hany (List.any_eq_true.2 ⟨e, he, by simp [hei]⟩)
+    have hui : t.bounds[i]? = some (u.bnd i) := by
+      rw [← h2 i hni]
+      have : i < u.bounds.length := by omega
+      simp [bnd, List.getD_eq_getElem?_getD, this]
+    refine ⟨l ++ [(i, u.bnd i)], rfl, by simp [setBound, hlen], ?_, ?_⟩
+    · intro e he
+      rcases List.mem_append.1 he with he | he
+      · exact h1 e he
+      · have : e = (i, u.bnd i) := by simpa using he
+        subst this
+        exact hui
+    · intro j hj
+      have hji : i ≠ j := fun h => hj (i, u.bnd i) (by simp) h
+      have h3 := h2 j (fun e he => hj e (List.mem_append_left _ he))
+      simp only [setBound, List.getElem?_set, hji, if_false]
+      exact h3
+
+theorem C09_popInv_overwrite (t : Lra) : ∀ (ws : List (Nat × LBound)) (u : Lra),
+    (∀ w ∈ ws, w.1 < t.bounds.length) → C09PopInv t u →
+    C09PopInv t (ws.foldl (fun t w => (t.saveBound w.1).setBound w.1 w.2) u) := by
+  intro ws
+  induction ws with
+  | nil => intro u _ h; exact h
+  | cons w ws ih =>
+    intro u hw h
+    exact ih _ (fun w' hw' => hw w' (List.mem_cons_of_mem _ hw'))
+      (C09_popInv_step t u w.1 w.2 (hw w List.mem_cons_self) h)
+
+/-- writing saved values of `ts` back, over a state that agrees with `ts` elsewhere, yields `ts` -/
+theorem C09_restore (ts : List LBound) : ∀ (l : List (Nat × LBound)) (u : Lra), u.bounds.length = ts.length →
+    (∀ e ∈ l, ts[e.1]? = some e.2) → (∀ i, (∀ e ∈ l, e.1 ≠ i) → u.bounds[i]? = ts[i]?) →
+    (l.foldl (fun t e => t.setBound e.1 e.2) u).bounds = ts := by
+  intro l
+  induction l with
+  | nil =>
+    intro u _ _ h2
+    exact List.ext_getElem? (fun i => h2 i (by simp))
+  | cons e l ih =>
+    intro u hlen h1 h2
+    refine ih (u.setBound e.1 e.2) (by simp [setBound, hlen]) (fun e' he' => h1 e' (List.mem_cons_of_mem _ he')) ?_
+    intro i hi
+    by_cases hie : e.1 = i
+    · have he := h1 e List.mem_cons_self
+      have hlt : e.1 < ts.length := by
+        rcases Nat.lt_or_ge e.1 ts.length with h | h
+        · exact h
+        · rw [List.getElem?_eq_none h] at he; cases he
+      subst hie
+      simp only [setBound, List.getElem?_set, if_true, hlen, hlt]
+      exact he.symm
+    · simp only [setBound, List.getElem?_set, hie, if_false]
+      exact h2 i (by
+        intro e' he'
+        rcases List.mem_cons.1 he' with h | h
+        · subst h; exact hie
+        · exact hi e' h)
+
+theorem C09_pop_of_inv (t u : Lra) (h : C09PopInv t u) : u.pop.bounds = t.bounds ∧ u.pop.layers = t.layers := by
+  obtain ⟨l, hl, hlen, h1, h2⟩ := h
+  unfold pop
+  rw [hl]
+  exact ⟨C09_restore t.bounds l u hlen h1 h2, rfl⟩
+
+/-! ### concrete states for the non-vacuity examples -/
+
+/-- x0 free and non-basic, x1 basic with row `x1 = x0` and bounds `1 ≤ x1`, every value 0 -/
+def c09ExampleState : Lra :=
+  { bounds := [⟨IR.ofR R.ninf, Lit.trueLit⟩, ⟨IR.ofR R.pinf, Lit.trueLit⟩,
+               ⟨IR.ofR R.one, Lit.trueLit⟩, ⟨IR.ofR R.pinf, Lit.trueLit⟩],
+    vals := [IR.ofR R.zero, IR.ofR R.zero],
+    tableau := [(1, Lin.var 0 R.one)],
+    exprs := [], sAsrts := [], vAsrts := [],
+    aWatches := [[], []], tWatches := [[1], []], layers := [] }
+
+/-- the same with `x0 ≤ 0` -/
+def c09ConflictState : Lra := c09ExampleState.setBound (ubIdx 0) ⟨IR.ofR R.zero, Lit.trueLit⟩
+
+/-- a decidable test from which the existential of the example follows (`Lra` has no decidable equality) -/
+theorem C09_example_witness (t : Lra) (fuel : Nat)
+    (h : (t.check fuel).map (fun p => p.1.isNone && (p.2.tableau.map (·.1) != t.tableau.map (·.1))) = some true) :
+    ∃ t', t.check fuel = some (none, t') ∧ t'.tableau ≠ t.tableau := by
+  cases hc : t.check fuel with
+  | none => rw [hc] at h; simp at h
+  | some p =>
+    obtain ⟨c, t'⟩ := p
+    rw [hc] at h
+    simp only [Option.map_some, Option.some.injEq, Bool.and_eq_true, Option.isNone_iff_eq_none, bne_iff_ne, ne_eq] at h
+    refine ⟨t', by rw [h.1], fun he => h.2 (by rw [he])⟩
+
+theorem C09_example_conflict_witness (t : Lra) (fuel : Nat)
+    (h : (t.check fuel).map (fun p => p.1.isSome) = some true) :
+    ∃ c t', t.check fuel = some (some c, t') := by
+  cases hc : t.check fuel with
+  | none => rw [hc] at h; simp at h
+  | some p =>
+    obtain ⟨c, t'⟩ := p
+    rw [hc] at h
+    cases c with
+    | none => simp at h
+    | some c => exact ⟨c, t', rfl⟩
+
+end Lra
+end Oratio
